@@ -147,6 +147,14 @@ func (p *RunnableProcessor) Process(ctx context.Context, records []opencdc.Recor
 		}
 	}
 
+	// An error record without an error would be nacked with a nil reason and
+	// dereferenced when the dead-letter record is built: give it a reason.
+	for i, outRec := range outRecs {
+		if errRec, ok := outRec.(sdk.ErrorRecord); ok && errRec.Error == nil {
+			outRecs[i] = sdk.ErrorRecord{Error: cerrors.New("processor returned an error record without an error")}
+		}
+	}
+
 	inspectorRecs := make([]opencdc.Record, 0, len(outRecs))
 	for _, outRec := range outRecs {
 		singleRec, ok := outRec.(sdk.SingleRecord)
